@@ -38,7 +38,7 @@ for l in lines:
 b = a + sum(len(l) + 1 for l in lines[:n])
 s = s[:a] + "\n".join(rows) + "\n" + s[b:]
 open(p, "w").write(s)
-missed1 = sum(1 for r in rows if "-s" in r.split("|")[1] and "**missed**" in r)
-missed2 = sum(1 for r in rows if "-t" in r.split("|")[1] and "**missed**" in r)
-print("rows: %d (round 1: %d, missed at intake %d; round 2: %d, missed at intake %d); not reported now: %d" % (
-    len(rows), sum(1 for r in rows if "-s" in r.split("|")[1]), missed1, sum(1 for r in rows if "-t" in r.split("|")[1]), missed2, sum(1 for r in rows if "**none**" in r)))
+def cnt(tag, missed=False):
+    return sum(1 for r in rows if tag in r.split("|")[1] and (not missed or "**missed**" in r))
+print("rows: %d; round 1: %d (missed at intake %d); round 2: %d (missed %d); round 3: %d (missed %d); not reported now: %d" % (
+    len(rows), cnt("-s"), cnt("-s", True), cnt("-t"), cnt("-t", True), cnt("-u"), cnt("-u", True), sum(1 for r in rows if "**none**" in r)))
